@@ -160,4 +160,26 @@ mod verif_window {
 		assert!(w.iter().count() == 0);
 		assert!(w.is_empty() && w.len() == 0);
 	}
+
+	// a window rebuilt from an exported buffer and oldest-index represents the same sequence (length 5, every index)
+	#[kani::proof]
+	#[kani::unwind(24)]
+	fn vk_window_from_parts() {
+		let index: PeriodType = kani::any();
+		kani::assume(index < 5);
+		let buf: Box<[u8]> = Box::new([10, 11, 12, 13, 14]);
+		let mut w = Window::from_parts(buf, index);
+		assert!(w.len() == 5 && !w.is_empty());
+		// oldest first: buf[index], buf[index+1], ... (cyclically)
+		let mut i: PeriodType = 0;
+		while i < 5 {
+			let want = 10 + ((index + i) % 5);
+			assert!(w[4 - i] == want);
+			assert!(w.get(4 - i) == Some(&want));
+			i += 1;
+		}
+		assert!(*w.oldest() == 10 + index && *w.newest() == 10 + ((index + 4) % 5));
+		assert!(w.push(99) == 10 + index);
+		assert!(*w.newest() == 99 && *w.oldest() == 10 + ((index + 1) % 5));
+	}
 }
